@@ -22,7 +22,9 @@ FORBIDDEN = ["(1).real", "[1,2][0]", "'a'.upper()", "(lambda: 1)()", "[x for x i
              "a", "pi.real", "[].append(1)", "str(1)", "chr(65)", "input()", "compile('1','','eval')", "breakpoint()", "help()", "1; 2", "import os",
              "yield 1", "await x", "not_a_tool(1)", "(1).__add__(2)", "int.__subclasses__()", "float('1').hex()"]
 HOSTILE = ["\ud800", '"\ud800"', "\x00", "1+" * 20000 + "1", "(" * 300 + "1" + ")" * 300, "-" * 900 + "1", "9" * 5000, "'" + "a" * 999, "", " ", "\n", "1 +", "((", "0x", "1e999",
-           "1/0", "1%0", "2**-1", "sqrt(-1)", "log(0)", "factorial(-1)", "int('x')", "[" * 200 + "]" * 200, '{"a":' * 100, "True and", "é" * 100, "𝟙+1", "1_000", "0o17", "1j", "...", "None", "b'a'"]
+           "1/0", "1%0", "2**-1", "sqrt(-1)", "log(0)", "factorial(-1)", "int('x')", "[" * 200 + "]" * 200, '{"a":' * 100, "True and", "é" * 100, "𝟙+1", "1_000", "0o17", "1j", "...", "None", "b'a'",
+           # failures that are NOT ordinary evaluation errors: parser stack overflow and impossible allocations raise MemoryError, deep nesting RecursionError
+           "-" * 7000 + "1", "+-" * 4500 + "1", "'a' * 10**15", "(0, 0) * 10**15", "[0] * 10**15", "not " * 2400 + "1", "abs(" * 150 + "1" + ")" * 150]
 
 
 def child_eval(expr, q, timeout_cfg):
